@@ -372,6 +372,10 @@ fn run_history(cfg: &Cfg, letters: &[u8], canonical: bool, ctx: &mut Ctx) {
 		}),
 	};
 	let looping = cfg.shape == Shape::DcLoop;
+	// half of the finite scenes carry a loop region whose end lies beyond the audio: it is never reached, the sound is
+	// as finite as without it ("a non-looping sound reaches Stopped after its last frame")
+	let beyond = cfg.shape == Shape::Finite6 && cfg.chunk == 3;
+	let beyond_region = || Region { start: kira::sound::PlaybackPosition::Samples(0), end: kira::sound::EndPosition::Custom(kira::sound::PlaybackPosition::Samples(FIN_LEN + 3)) };
 	let first_dec = pacer::count();
 	let mut dec_stats = None;
 	let (mut sound, mut handle): (Box<dyn Sound>, Box<dyn SoundHandle>) = match cfg.kind {
@@ -379,6 +383,8 @@ fn run_history(cfg: &Cfg, letters: &[u8], canonical: bool, ctx: &mut Ctx) {
 			let mut data = rig::static_data(sr, frames.clone()).start_time(own_start).reverse(cfg.shape == Shape::Finite6Reversed);
 			if looping {
 				data = data.loop_region(Region::from(..));
+			} else if beyond {
+				data = data.loop_region(beyond_region());
 			}
 			let (s, h) = data.into_sound().expect("static into_sound");
 			(s, Box::new(h))
@@ -389,6 +395,8 @@ fn run_history(cfg: &Cfg, letters: &[u8], canonical: bool, ctx: &mut Ctx) {
 			let mut data = StreamingSoundData::from_decoder(dec).start_time(own_start);
 			if looping {
 				data = data.loop_region(Region::from(..));
+			} else if beyond {
+				data = data.loop_region(beyond_region());
 			}
 			let (s, h) = data.into_sound().expect("streaming into_sound");
 			(s, Box::new(h))
